@@ -132,6 +132,8 @@ structure Backup where
   ftps : SvcState := .running
   /-- `<db-service-uuid>/database.db` on the backup host -/
   stored : Option FHealth := none
+  /-- copies stored by EARLIER instances of the database service (other uuid folders): never read again -/
+  orphans : List FHealth := []
 deriving DecidableEq, Repr
 
 structure Client where
@@ -1053,7 +1055,8 @@ def step (st : State) : Op → State × Out
     let r := st.srv.reinstall cfg
     match r.2 with
     -- the new instance has a new uuid: whatever the old one stored on the backup host is not ITS backup
-    | .done => ({ st with srv := r.1, bk := { st.bk with stored := none } }, { res := some true })
+    | .done => ({ st with srv := r.1, bk := { st.bk with stored := none, orphans := st.bk.orphans ++ st.bk.stored.toList } },
+                { res := some true })
     | .refused => (st, { rejected := true })
     | .raised => (st, { raised := true })
   | .co k =>
